@@ -66,12 +66,20 @@ def show_hdrs(c):
     return [(bytes.fromhex(h["key"]), h["shape"], [bytes.fromhex(v) for v in h["vals"]]) for h in c["hdrs"]]
 
 
-def oracle(c):
+def in_finding(c):
+    """carrier.dubbo.no-tx-stale-attachment (KNOWN_FINDINGS.txt): see tm_util.pred_dubbo_forwarded_stale"""
+    import tm_util
+    return c["roundtrip"] and tm_util.pred_dubbo_forwarded_stale(c["kind"], c["xid"], c["hdrs"])
+
+
+def oracle(c, strict=False):
     fails = []
     xid, got = bytes.fromhex(c["xid"]), bytes.fromhex(c["got"])
     if c["panicked"]:
         return ["the integration or the callee panicked"]
     want = expected(c)
+    if in_finding(c) and not strict:
+        want = got          # listed finding: what travels is not judged here; the rest still is
     if got != want:
         if c["roundtrip"]:
             fails.append("callee found xid %r, the caller's transaction is %r (outgoing context already held %s)" % (got, xid, show_hdrs(c)))
@@ -133,7 +141,21 @@ def run(chk, cases_in=None):
         i = unexplained[0]
         chk.violation("correspondence between Tm/Carrier.v and the integrations broke; the property's own clauses hold on every executed case",
                       {"case": slim(cases[i]), "carrier": True, "correspondence": "Tm/Carrier.v check_ccase"}, False)
+    if cases_in is None:
+        for kf in vlib.known_findings("C07"):
+            import json, os
+            rp = json.load(open(os.path.join(vlib.VERIF, kf["replay"])))
+            p = chk.tmp("carrier_known.json")
+            json.dump(rp["cases"], open(p, "w"))
+            kd, _ = vlib.run_harness("tmcarrier", chk.tmp("carrier_known_out.json"), timeout=300, tier=chk.tier, seed=chk.seed, **{"in": p})
+            if all(in_finding(c) and oracle(c, strict=True) for c in kd["cases"]):
+                chk.known("id=%s pred=%s :: %s" % (kf["id"], kf["pred"], kf["what"]))
+            else:
+                print("STALE-FINDING: property=C07 id=%s no longer reproduces on %s" % (kf["id"], kf["replay"]))
+                chk.notes.append("stale finding " + kf["id"])
     return {"evaluations": len(cases), "traces_validated_against_impl": len(cases) - len(mism),
+            "in_finding_region": sum(1 for c in cases if in_finding(c)),
+            "sender_without_transaction": sum(1 for c in cases if c["roundtrip"] and not c["xid"] and c["hdrs"]),
             "oracle_failures": len(failing), "harness_secs": round(secs, 1),
             "by_kind": dict(collections.Counter(c["kind"] + (".roundtrip" if c["roundtrip"] else ".server") for c in cases)),
             "xid_carried": sum(1 for c in cases if c["got"]),
